@@ -22,6 +22,7 @@ ASSUMPTIONS = [
 HASH = re.compile(r"j[0-9a-f]{16}")
 SIG_SEQ = "C20:shared-static-null"
 SIG_RACE = "C20:shared-static-null-race"
+SIG_PROVIDER = "C20:copied-provider-stream-needs-source"
 
 
 # ------------------------------------------------------------------ history generator
@@ -469,6 +470,69 @@ def part_thr(chk):
     p["model_predicted_conflicts"] = {"clean": "none (threads_disjoint_footprints)", "nulls": "the shared null cell (race_on_shared_null_refuted)"}
 
 
+# ------------------------------------------------------------------ bystander oracle on real files
+
+def part_file(chk, drv):
+    """3 live documents opened from generated PDF files (pages, streams, strings, nulls, sparse arrays); random
+    mutations of ONE document per step through the public API, including copyForeignObject / addPage FROM another
+    live document, QPDFWriter in every mode, JSON export and update, destroy + reopen.  After every step the
+    library itself is asked for the complete JSON of every document and of a freshly opened file: everything that
+    does not belong to the acting document must hash the same as before the step.  No model on this part."""
+    wd = os.path.join(common.BUILD, "work", "C20-file")
+    os.makedirs(wd, exist_ok=True)
+    files = make_pdfs(wd)
+    allf = files["clean"] + files["nulls"]
+    nruns = 40 if chk.tier == "quick" else 1500
+    nsteps = 25 if chk.tier == "quick" else 40
+    lines = []
+    for k in range(nruns):
+        fs = [chk.rng.choice(allf) for _ in range(3)]
+        lines.append("isofile %d %d %s" % (chk.seed * 100000 + k, nsteps, ",".join(fs)))
+    outs = common.run_lines(drv, lines, shards=4)
+    nev = 0
+    kinds = {}
+    nontriv = set()
+    for line, out in zip(lines, outs):
+        steps = out.split("#")
+        if not steps or not steps[0].startswith("init|"):
+            chk.violation({"kind": "property-fails-on-implementation", "part": "file", "why": "the driver did not survive the history",
+                           "output": out[:600], "replay": line})
+            continue
+        prev = steps[0].split("|")[1].split(",")
+        d6 = False      # a parsed null has been made indirect in this process: everything after may show finding D6
+        copied = set()  # (destination, source) pairs of copyForeignObject / addPage
+        for n, st in enumerate(steps[1:]):
+            f = st.split("|")
+            if len(f) != 3:
+                chk.violation({"kind": "property-fails-on-implementation", "part": "file", "why": "malformed step output", "output": st[:300], "replay": line})
+                break
+            op, acting, hashes = f[0], f[1], f[2].split(",")
+            acting = {acting}
+            if op.startswith("addpage-from:"):
+                # documented: QPDF::addPage of a foreign page first pushes inherited attributes down in the SOURCE
+                # document (an equivalent document, but not the same objects): the source takes part in this call
+                acting.add(op.split(":")[1])
+            nev += 1
+            d6 = d6 or op.startswith("makeind-item:null")
+            if op.startswith(("addpage-from:", "copyforeign-from:")) and not op.endswith(("!L", "!R")):
+                copied.add((int(f[1]), op.split(":")[1]))      # (destination, source)
+            kinds[op.split(":")[0]] = kinds.get(op.split(":")[0], 0) + 1
+            for j, (b, a) in enumerate(zip(prev, hashes)):
+                name = "a freshly opened file" if j == len(hashes) - 1 else "document %d" % j
+                if str(j) not in acting and b != a:
+                    chk.violation({"kind": "property-fails-on-implementation", "part": "file",
+                                   "why": "step %d (%s) is an operation of document %s but the complete JSON of %s changed" % (n, op, "+".join(sorted(acting)), name),
+                                   "step": n, "op": op, "before": b, "after": a, "replay": line,
+                                   "after_a_parsed_null_was_made_indirect": d6},
+                                  signature=SIG_SEQ if d6 else (SIG_PROVIDER if (op == "reopen" and a == "!stream-source-destroyed"
+                                                                                 and (j, next(iter(acting))) in copied) else ""))
+                    break
+            prev = hashes
+        nontriv.add(line)
+    chk.count("file", nev, nontriv, samples=[{"run": lines[0], "output": outs[0][:200]}])
+    chk.cov["parts"]["file"]["op_distribution"] = kinds
+
+
 def run(chk):
     drv = os.path.join(common.DRV, "drv")
     runner = os.path.join(common.EXTRACT, "model_runner")
@@ -478,8 +542,11 @@ def run(chk):
                        "other documents, of handles obtained from them and of two fresh parses must be unchanged; non-trivial = history with "
                        ">= 4 performed calls on which the frame held and the model agrees, distinct by history text")
     part_seq(chk, drv, runner)
+    part_file(chk, drv)
     part_thr(chk)
-    chk.cov["rule"] += ("; thr: %s" % "4 (TSan) and 8 (plain) threads x 6-12 jobs each (object-API build, open+JSON, open+write in 7 modes, JSON round trip, "
+    chk.cov["rule"] += ("; file: 3 live documents opened from generated files, random public-API mutations of one of them per step (catalog keys, new indirect objects, "
+                        "replaceObject, page rotate/remove, addPage and copyForeignObject FROM another live document, QPDFWriter in 6 modes, JSON export, updateFromJSON, "
+                        "destroy+reopen), complete JSON of every other document and of a freshly opened file hashed after every step; thr: %s" % "4 (TSan) and 8 (plain) threads x 6-12 jobs each (object-API build, open+JSON, open+write in 7 modes, JSON round trip, "
                         "page mutation + copy from a second own document, QPDFJob argv, inspect, QPDFJob JSON) on null-free and on null-containing inputs; "
                         "every output compared with the same job run alone; every TSan report attributed (known shared-null / other libqpdf / foreign)")
 
